@@ -36,7 +36,18 @@ func family(f string) string {
 }
 
 // c07Pool is the fixed document pool of a batch, derived from VERIF_SEED.
+var c07PoolCache = map[int64][]*sbom.Document{}
+
 func c07Pool(verifSeed int64) []*sbom.Document {
+	if p, ok := c07PoolCache[verifSeed]; ok {
+		return p
+	}
+	p := c07BuildPool(verifSeed)
+	c07PoolCache[verifSeed] = p
+	return p
+}
+
+func c07BuildPool(verifSeed int64) []*sbom.Document {
 	r := rand.New(rand.NewSource(verifSeed*7919 + 7))
 	var pool []*sbom.Document
 	for i := 0; i < 12; i++ {
@@ -137,6 +148,14 @@ func c07Pool(verifSeed int64) []*sbom.Document {
 			n.LicenseConcluded = ")("
 		}
 	})
+	for i := 0; i < 8; i++ { // schema-driven hostile documents, forced to one existing root so that serializers get past their guards
+		g := gen.New(r.Int63(), gen.Profile{MaxNodes: 6, Tag: fmt.Sprintf("x%d", i), Hostile: true})
+		d := g.Document(fmt.Sprintf("urn:uuid:11111111-0000-4000-8000-%012d", i))
+		if len(d.NodeList.Nodes) > 0 {
+			d.NodeList.RootElements = []string{d.NodeList.Nodes[r.Intn(len(d.NodeList.Nodes))].Id}
+		}
+		pool = append(pool, d)
+	}
 	h(func(d *sbom.Document) { // an edge list entry and nodes with empty strings everywhere
 		d.NodeList.Edges = append(d.NodeList.Edges, &sbom.Edge{})
 		d.NodeList.Nodes = append(d.NodeList.Nodes, &sbom.Node{})
